@@ -336,3 +336,28 @@ impl Property for P {
         0.1
     }
 }
+
+pub fn decode(data: &[u8]) -> Case {
+    let mut r = crate::fuzzdec::Reader::new(data);
+    let mode = r.u8();
+    if mode & 2 == 2 {
+        let mut spec = crate::fuzzdec::optspec(&mut r, true, true);
+        spec.algo = Algo::FirstFit;
+        let prior = r.bool();
+        let par = crate::fuzzdec::text(mode, r.rest()).replace("\r\n", "\r").replace('\n', " ");
+        return Case::Text { par, spec, prior };
+    }
+    let nw = 1 + r.pick(4);
+    let widths: Vec<f64> = (0..nw).map(|_| r.u8() as f64 / 4.0).collect();
+    let mut frags = Vec::new();
+    while r.remaining() >= 2 && frags.len() < 40 {
+        let x = r.u8();
+        let y = r.u8();
+        frags.push(Frag {
+            w: x as f64 / 8.0,
+            ws: (y & 7) as f64 / 2.0,
+            p: (y >> 5) as f64 / 2.0,
+        });
+    }
+    Case::Frags { frags, widths }
+}
